@@ -235,6 +235,11 @@ def faults(spec, asg, toks, roles):
         for i in range(n + 1):
             if boundary(i) and not after_bare(i):
                 yield "surplus-positional", toks[:i] + ["zz"] + toks[i:], CPA
+                if i > dd:
+                    # behind `--` nothing is a command name: a surplus word spelled like one is still surplus
+                    for nm in spec["names"]:
+                        for w in [nm[0]] + list(nm[1]):
+                            yield "surplus-positional", toks[:i] + [w] + toks[i:], CPA
     # 3 unknown option (only in front of `--`)
     for i in range(dd + 1):
         if boundary(i):
